@@ -7,7 +7,9 @@ import (
 
 // Directed corpus for C20 (DESIGN.md appendix C): one flow per action type that saves a result or holds a fixed
 // reference, each executed on the success and on the failure path of its fake service, followed by a msg wait
-// with a timeout (left by msg / by timeout) or a dial wait; routers with result names; localized templates.
+// with a timeout (left by msg / by timeout) or a dial wait; routers with result names; localized templates;
+// one case per resthook of resthookPool (every combination of subscriber answers); planted-* (plantedDirected):
+// every free string property of every action / router / wait carries a reference that occurs nowhere else.
 
 type M = gen.M
 
